@@ -65,11 +65,17 @@ class A(Adapter):
             items += [("onesided", ONE_SIDED_MAZE, None)]
         out = []
         for (nm, maze, tl) in items:
-            def build(maze=maze, tl=tl):
+            def build(maze=maze, tl=tl, nm=nm):
+                if nm == "default" and tl is None:
+                    return PacMan()              # the shipped environment itself (default generator, default time limit)
                 return PacMan(generator=AsciiGenerator(maze), time_limit=tl)
             env = build()
-            out.append(Config(f"pacman-{nm}-t{tl}", build, {"time_limit": int(env.time_limit), "maze": list(maze)},
-                              constant_generator=True, max_instances=3))
+            cj = {"time_limit": int(env.time_limit), "maze": list(env.generator.maze)}
+            if nm == "default":
+                # Gen/PacManMaze.lean (harness/translators_pacman.py) tabulates the reset of the default environment;
+                # `pac_man.instance` compares the generated table and diagram with the real reset state (C10 / C07)
+                cj["generated_default"] = True
+            out.append(Config(f"pacman-{nm}-t{tl}", build, cj, constant_generator=True, max_instances=3))
         return out
 
     def ser_state(self, env, s):
@@ -80,7 +86,7 @@ class A(Adapter):
                 "old_ghost_locations": _pairs(s.old_ghost_locations), "ghost_init_steps": ser(s.ghost_init_steps),
                 "ghost_actions": ser(s.ghost_actions), "last_direction": int(s.last_direction), "dead": bool(s.dead),
                 "ghost_starts": ser(s.ghost_starts), "step_count": int(s.step_count), "ghost_eaten": ser(s.ghost_eaten),
-                "score": int(s.score)}
+                "score": int(s.score), "scatter_targets": _pairs(s.scatter_targets)}
 
     def ser_obs(self, env, o):
         return {"grid": ser(o.grid), "player_locations": {"x": int(o.player_locations.x), "y": int(o.player_locations.y)},
